@@ -44,7 +44,8 @@ def apply_patch(d, patch_bytes, reverse=False):
 
 
 def run_check(prop, d, tier="quick", seed=0, timeout=1800):
-    env = dict(os.environ, VERIF_REPO=d, VERIF_SEED=str(seed), RV_EVIDENCE_DIR=os.path.join(d, ".rv-evidence"))
+    env = dict(os.environ, VERIF_REPO=d, VERIF_SEED=str(seed), RV_EVIDENCE_DIR=os.path.join(d, ".rv-evidence"),
+               RV_REPLAY_DIR=os.path.join(d, ".rv-replays"))     # per-copy, so that several mutants can run side by side
     t0 = time.time()
     p = subprocess.run([os.path.join(VERIF, "check"), prop, tier], capture_output=True, text=True, env=env, timeout=timeout)
     lines = p.stdout.splitlines()
@@ -90,25 +91,31 @@ def main():
     ap.add_argument("--table")
     ap.add_argument("--only")
     ap.add_argument("--tier", default="quick")
+    ap.add_argument("--jobs", type=int, default=1)
     a = ap.parse_args()
     results = []
     if a.table:
+        from concurrent.futures import ThreadPoolExecutor
+
         table = json.load(open(a.table))
-        for row in table:
-            if a.only and a.only not in row["props"] and a.only != row["name"]:
-                continue
+
+        def do(row):
             if row.get("reverse_fix"):
                 pb = subprocess.run(["git", "-C", REPO, "show", "--format=", row["reverse_fix"]], capture_output=True).stdout
-                r = one(row["name"], pb, row["props"], reverse=True, tier=a.tier)
-            else:
-                pb = open(os.path.join(VERIF, row["patch"]), "rb").read()
-                r = one(row["name"], pb, row["props"], tier=a.tier)
-            results.append(r)
-            print("%-48s caught_by=%s %s" % (r["mutant"], r["caught_by"] or "NONE",
-                                              "; ".join("%s rc=%s %ss replay=%s" % (x["prop"], x["rc"], x["wall"], x.get("replay")) for x in r["results"])), flush=True)
-            for x in r["results"]:
-                if not x["caught"]:
-                    print("     MISSED by %s: %s %s" % (x["prop"], x["first"], x["stderr"][-200:].replace("\n", " ")))
+                return one(row["name"], pb, row["props"], reverse=True, tier=a.tier)
+            pb = open(os.path.join(VERIF, row["patch"]), "rb").read()
+            return one(row["name"], pb, row["props"], tier=a.tier)
+
+        rows = [row for row in table if not (a.only and a.only not in row["props"] and a.only != row["name"])]
+        with ThreadPoolExecutor(max_workers=a.jobs) as ex:
+            it = ex.map(do, rows)
+            for r in it:
+                results.append(r)
+                print("%-48s caught_by=%s %s" % (r["mutant"], r["caught_by"] or "NONE",
+                                                  "; ".join("%s rc=%s %ss replay=%s" % (x["prop"], x["rc"], x["wall"], x.get("replay")) for x in r["results"])), flush=True)
+                for x in r["results"]:
+                    if not x["caught"]:
+                        print("     MISSED by %s: %s %s" % (x["prop"], x["first"], x["stderr"][-200:].replace("\n", " ")))
     else:
         props = [p for p in a.props.split(",") if p]
         if a.reverse_fix:
